@@ -336,6 +336,16 @@ func c10Hint(c *Ctx) {
 			if op == token.LEQ && xp && yp {
 				return true
 			}
+			// !(n > 0): the first position of the ranged-over sub-slice
+			if k, isK := guard.ConstInt(y); op == token.LEQ && xp && isK && k == 0 {
+				return true
+			}
+			// n == 0 / add-form index (range-over-slice index is phi+1)
+			if bo, isBO := guard.Strip(x).(*ssa.BinOp); isBO && op == token.LEQ && bo.Op == token.ADD {
+				if k, isK := guard.ConstInt(y); isK && k == 0 {
+					return true
+				}
+			}
 			// encoded[index-1] < encoded[index]
 			if op == token.LSS {
 				ux, okx := guard.Strip(x).(*ssa.UnOp)
